@@ -29,7 +29,7 @@ FUNCTIONS = [
 BOUNDS = [
     "base meshes: regular-ish tetrahedron, sliver tetrahedron, triangular prism (8 faces), cube (12 faces), two disjoint tetrahedra with interleaved faces; "
     "vertices V = s*V0 + t with s in [1e-9,1e9], t in R^3 symbolic",
-    "tetrahedra: all 16 flip subsets x face orders from a committed list (quick: 2 orders, thorough: all 24); sliver: quick 2 flip subsets; prism / cube: all single "
+    "tetrahedra: all 16 flip subsets x face orders from a committed list (quick: 2 orders, thorough: 8 of the 24); sliver: quick 2, thorough 5 flip subsets; prism / cube: all single "
     "flips and the all-flipped mesh, 2 face orders (quick: 3 flip subsets, 1 order)",
     "self-intersection: (a) thin spike B (apex c+d*(1,1,1) on the axis through the centroid c of the slanted face of tetrahedron A=4*unit, base 1 further out), "
     "d in [-1.3,1] symbolic, truth -1<d<0; (a') a short thin spike through the same face next to its corner, far from the face centroid, d in [-0.25,0.2]; "
@@ -80,11 +80,13 @@ def cases(tier, seed):
     _check_base()
     out = []
     orders4 = list(itertools.permutations(range(4)))
-    sel = [orders4[0], orders4[14]] if tier == "quick" else orders4
+    sel = [orders4[0], orders4[14]] if tier == "quick" else orders4[::3]  # thorough: 8 of the 24 face orders (all 24 took > 3 h on 16 cores)
     for base in ("tetra", "sliver"):
         for oi, order in enumerate(sel):
             for flips in range(16):
                 if tier == "quick" and base == "sliver" and (flips not in (1, 15) or oi > 0):
+                    continue
+                if tier != "quick" and base == "sliver" and flips not in (0, 1, 5, 10, 15):
                     continue
                 out.append({"id": f"{base}-order{oi}-flips{flips:04b}", "base": base, "order": list(order), "flips": [i for i in range(4) if flips >> i & 1], "weight": 2})
     # disjoint parts with interleaved faces: orders [A0,B0,A1,B1,...] and [B3,A3,B2,...]; flipped faces in both parts
@@ -97,6 +99,8 @@ def cases(tier, seed):
     for geom in ("spike", "shifted", "spike-corner"):
         for order in SI_ORDERS:
             for fl in ([], [1]):
+                if fl and order != "Bfirst":
+                    continue
                 if tier == "quick" and (order in ("interleaved-rev", "Afirst" if geom == "spike" else "interleaved") or fl):
                     continue
                 if tier == "quick" and (geom == "spike" or (geom == "spike-corner" and order != "Bfirst")):
